@@ -204,8 +204,8 @@ def gen_prep_cases(rng, quick):
         cases.append({"kind": "family", "off": off, "W": W, "locks": locks})
     # audit pass: many live paths that END AT THE SAME ENSEMBLE with DIFFERENT weights (argsort ties between
     # different rows) and 8..11 plus ensembles, where numpy's default argsort really leaves the stable order
-    for _ in range(110 if quick else 2500):
-        m = rng.choice((8, 8, 8, 9) if quick else (8, 8, 9, 10, 11))
+    for _ in range(110 if quick else 1200):
+        m = rng.choice((8, 8, 8, 9) if quick else (8, 8, 9, 9, 10))
         nd = rng.choice((1, 2, 2, 3))
         vals = sorted(rng.sample(range(1, m + 1), nd) + [m])
         lasts = sorted(rng.choice(vals) for _k in range(m))
